@@ -881,6 +881,7 @@ int main(int argc, char ** argv)
     else if (a == "--litdir") o.litdir = nxt();
     else if (a == "--calls") o.calls = true;
     else if (a == "--c-cap") o.c_cap = atol(nxt().c_str());
+    else if (a == "--nme-set") NME_SET = atoi(nxt().c_str()) ? 1 : 0;
     else if (a == "--global-deadline") global_deadline = atof(nxt().c_str());
     else if (a == "--horizon") HORIZON = atol(nxt().c_str());
     else if (a == "--timeout") per_cfg_timeout = atof(nxt().c_str());
@@ -906,7 +907,8 @@ int main(int argc, char ** argv)
     std::getline(in, l);
     PHASE = strtoull(l.c_str(), nullptr, 10);
     std::getline(in, l);
-    o.via_gen = (l == "generator");
+    o.via_gen = (l.compare(0, 9, "generator") == 0);
+    if (l.find("nme2") != std::string::npos) NME_SET = 1;
     Forced f;
     size_t pos;
     double v;
